@@ -102,6 +102,12 @@ struct Runner {
           sh->stat[0]++; sh->stat[1] += r.steps; sh->stat[2] += ex.npoints; sh->level_execs[L]++;
           for (auto &c : r.counters) totals[c.first] += c.second;
           for (auto &sv : r.softs) if (softs.size() < 200 && !softs.count(sv.first)) softs[sv.first] = sv.second + " [choices " + item_str(it) + "]";
+          if (r.harness && r.starved) {
+            // still not runnable after two more attempts: this machine, not the code under test, failed to run the execution. It is left out
+            // together with the deviations that would have branched off it, counted, and the run reports itself as not exhaustive.
+            sh->stat[VK_NSTAT - 3]++; snprintf(sh->harness_msg, sizeof sh->harness_msg, "%s [choices %s]", r.hmsg.c_str(), item_str(it).c_str());
+            sh->pending[L]--; sh->active--; continue;
+          }
           if (r.harness) { snprintf(sh->harness_msg, sizeof sh->harness_msg, "%s [choices %s]", r.hmsg.c_str(), item_str(it).c_str()); sh->stop.store(3); sh->active--; goto done; }
           if (r.violated) {
             // replay twice with tracing; identical verdict and trace hash required
@@ -205,6 +211,7 @@ static inline int vk_main(int argc, char **argv, Factory factory, const char *de
     printf("NOTE %s: bounds preempt=%d fault=%d crash=%d env=%d total=%d; executions per deviation level:%s; completed level %d; %.1fs\n", cfg.family.c_str(),
            cfg.bounds[BK_PREEMPT], cfg.bounds[BK_FAULT], cfg.bounds[BK_CRASH], cfg.bounds[BK_ENV], cfg.total, le.c_str(), sh->completed_level.load(), now_s() - t0); }
   for (auto &s : samples) printf("SAMPLE %s\n", s.c_str());
+  if (sh->stat[VK_NSTAT - 3].load()) printf("CAPPED %s: %ld execution(s) could not be run on this machine (a simulated process got no CPU; last: %s) and were left out with the deviations branching off them\n", cfg.family.c_str(), sh->stat[VK_NSTAT - 3].load(), sh->harness_msg);
   if (stop == 2) printf("CAPPED %s: time/queue cap hit; deviation levels fully covered: 0..%d\n", cfg.family.c_str(), sh->completed_level.load());
   for (auto &sv : softs) printf("FAIL %s %s\n", sv.first.c_str(), sv.second.c_str());
   if (stop == 1) { printf("FAIL %s %s (replay: %s)\n", sh->viol_key, sh->viol_text, sh->viol_file); return 1; }
